@@ -7,7 +7,7 @@ EXTENDS Asm, Json, IOUtils
 ValsFull == {0,1,15,16,17,127,128,129,255,256,257,4095,4096,32767,32768,65535,-1,-15,-16,-17,-127,-128,-129,-255,-256,-32767,-32768}
 ValsQuick == {0,5,15,16,127,128,255,256,4660,32768,65535,-1,-16,-17,-128,-129,-32768}
 Vals == IF IOEnv.TIER = "thorough" THEN ValsFull ELSE ValsQuick
-CharOK(v) == v \in 48..57 \/ v \in 65..90 \/ v \in 97..122 \/ v \in {33,34,35,36,37,38,39,40,41,42,43,44,45,46,47,58,59,60,61,62,63,94}
+CharOK(v) == v \in 48..57 \/ v \in 65..90 \/ v \in 97..122 \/ v \in {33,34,35,36,37,38,39,40,41,42,43,45,46,47,58,60,61,62,63,94}
 SpsFull(v) == IF v < 0 THEN {"dec"} ELSE {"dec", "hex", "hex4"} \cup (IF v <= 255 THEN {"hex2", "bin8"} ELSE {}) \cup {"bin16"} \cup (IF CharOK(v) THEN {"char"} ELSE {})
 SpsQuick(v) == IF v < 0 THEN {"dec"} ELSE {"dec", "hex4"} \cup (IF v \in {5, 128} THEN {"hex2", "bin8", "hex"} ELSE {}) \cup (IF v = 4660 THEN {"bin16", "hex"} ELSE {})
 Sps(v) == IF IOEnv.TIER = "thorough" THEN SpsFull(v) ELSE SpsQuick(v)
